@@ -158,7 +158,7 @@ def okb(case, io, mo):
 
 
 def run(chk, replay=None):
-    proof = proof_check_streams(PID, "C15Streams")
+    proof = proof_check_streams(PID, "C15Streams", extra=("CtorStreams",))
     drv = build_driver(); exe = build_harness("default"); cfg = harness_config(exe)
     if replay:
         r = json.load(open(replay)); c = r["case"]
